@@ -76,16 +76,22 @@ class P(Process):
 
 
 class S(Step):
+    """Reads z and the shared counter `mark`; writes what it read and adds 1 to
+    `mark` (counted updater): a sibling of the same layer must not see it."""
+
     def ports_schema(self):
         return {'s': {'z': {'_default': 0},
+                      'mark': {'_default': 0, '_updater': count_acc,
+                               '_emit': True},
                       'seen_' + self.name: {'_default': 0, '_updater': 'set',
                                             '_emit': True}}}
 
     def next_update(self, timestep, states):
         CTX['sinv'].append(dict(name=self.name, c=CTX['applies'],
-                                z=states['s']['z'],
+                                z=states['s']['z'], mark=states['s']['mark'],
                                 nrows=len(stubs.SINK['rows'])))
-        return {'s': {'seen_' + self.name: states['s']['z']}}
+        return {'s': {'seen_' + self.name: states['s']['z'] +
+                      states['s']['mark'], 'mark': 1}}
 
 
 def jobs(tier):
@@ -170,7 +176,8 @@ def body(ctx, cfg):
         for i in range(0, len(sinv) - nst + 1, nst or 1):
             grp = sinv[i:i + nst]
             for a, b in itertools.combinations(grp, 2):
-                layer.append(AND(a['c'] == b['c'], EQ(a['z'], b['z'])))
+                layer.append(AND(a['c'] == b['c'], EQ(a['z'], b['z']),
+                                 EQ(a['mark'], b['mark'])))
     ctx.claim('C04.same_instant', AND(same), sig='same_instant')
     ctx.claim('C04.committed', AND(committed), sig='committed')
     if snames:
